@@ -140,9 +140,31 @@ def multipitch_frame_mono(nf):
                bounds=dict(freqs=nf), timeout_s=1800)
 
 
+def velocity_nested(size):
+    """with velocity <= without velocity (for any regression outcome)"""
+    n, m = size
+
+    def build(ctx):
+        return T.b_notes(velocity=True, tol_kw=('velocity_tolerance',))(ctx, size)
+
+    def body(A, inp):
+        ri, rp, rv = inp['ref']
+        ei, ep, ev = inp['est']
+        wv = TV.precision_recall_f1_overlap(ri, rp, rv, ei, ep, ev, **inp['kw'])
+        wo = TR.precision_recall_f1_overlap(ri, rp, ei, ep)
+        for i, nm in enumerate(('P', 'R', 'F')):
+            A.observe('with_velocity.' + nm, wv[i])
+            A.observe('without.' + nm, wo[i])
+            A.require(A.le(wv[i], wo[i]), 'transcription.%s:with-velocity<=without' % nm)
+    return Job('C07', 'transcription_velocity.nested[%dx%d]' % (n, m), build, body, exact_floats=False,
+               funcs=['transcription_velocity.precision_recall_f1_overlap', 'transcription.precision_recall_f1_overlap'], bounds=dict(size=size), timeout_s=1500)
+
+
 def jobs(tier):
     q = tier == 'quick'
     js = []
+    for size in ([(1, 1), (1, 2)] if q else [(1, 1), (1, 2), (2, 2)]):
+        js.append(velocity_nested(size))
     for (n, m) in ([(2, 2)] if q else [(2, 2), (2, 3), (3, 3)]):
         js.append(match_events_mono(n, m))
     js.append(multipitch_frame_mono(2))
